@@ -811,6 +811,7 @@ class Transaction(object):
         self._dbConnection._setAutoCommit(self._connection, False)
         self.cache = CacheSet(cache=dbConnection.doCache)
         self._deletedCache = {}
+        self._updatedCache = {}
         self._obsolete = False
 
     def assertActive(self):
@@ -858,6 +859,23 @@ class Transaction(object):
                                     self)
         return meth(inst)
 
+    def _SO_update(self, so, values):
+        # Remember which rows were written through this transaction:
+        # commit() has to expire the parent connection's instances of
+        # them even when the transaction's own instance has left its
+        # cache by then (culled, garbage collected or expired).
+        cls = so.__class__.__name__
+        if cls not in self._updatedCache:
+            self._updatedCache[cls] = []
+        self._updatedCache[cls].append(so.id)
+        if PY2:
+            meth = types.MethodType(self._dbConnection._SO_update.__func__,
+                                    self, self.__class__)
+        else:
+            meth = types.MethodType(self._dbConnection._SO_update.__func__,
+                                    self)
+        return meth(so, values)
+
     def commit(self, close=False):
         if self._obsolete:
             # @@: is it okay to get extraneous commits?
@@ -869,6 +887,8 @@ class Transaction(object):
         subCaches = [(sub[0], sub[1].allIDs())
                      for sub in self.cache.allSubCachesByClassNames().items()]
         subCaches.extend([(x[0], x[1]) for x in self._deletedCache.items()])
+        subCaches.extend([(x[0], x[1]) for x in self._updatedCache.items()])
+        self._updatedCache = {}
         for cls, ids in subCaches:
             for id in list(ids):
                 inst = self._dbConnection.cache.tryGetByName(id, cls)
@@ -938,6 +958,7 @@ class Transaction(object):
                                              explicit=True)
         self._connection = None
         self._deletedCache = {}
+        self._updatedCache = {}
 
     def begin(self):
         # @@: Should we do this, or should begin() be a no-op when we're
